@@ -10,7 +10,13 @@
     {implicit, min-1, min, max, max+1, repeated} x fields (6 536 / 107 k); every dictionary key form x 5 positions (310);
     stream placement over <= 3 parameters / return members (720); duplicate names in every scope kind, inherited
     operations through chains and diamonds, alias of optional, module placement (34); every built-in attribute x 17
-    targets (incl. base interface and underlying type) x 6 argument shapes x repeated (1 428).
+    targets (incl. base interface and underlying type) x 6 argument shapes x repeated (1 428);
+    Inheritance.tla / MC_Inherit: every acyclic hierarchy of <= 4 (5) interfaces with <= 2 written bases each x every
+    assignment of two operation names x 3 layouts (declaration order, reverse, two files): TLC checks that the closure
+    the code computes (own bases, then the bases' closures, first occurrence kept) is the transitive closure and that
+    "own name = inherited name" is "redeclares an ancestor's operation"; each hierarchy is compiled: E011 iff the model
+    says so, every E011 points at a redeclaring operation, and for accepted programs all_base_interfaces /
+    all_inherited_operations / all_operations equal the model's sets with nothing listed twice.
     Oracle: accepted <=> Violations = {}; if rejected: reported codes non-empty and a subset of Violations; every
     diagnostic span lies inside its file.
 """
@@ -30,3 +36,7 @@ def run(ctx):
     for fam in ("members", "enums", "keys", "stream", "names", "attrs"):
         cfg = "MC_Rules_%s_%s" % (fam, ctx.tier if fam == "enums" else "quick")
         ctx.tlc("MC_Rules", cfg, replay="rules", coverage=False)
+    # interface hierarchies: closure = transitive closure, shadowing = redeclaration (model checked), then compiled
+    ctx.tlc("MC_Inherit", "MC_Inherit_" + ctx.tier, replay="rules", coverage=False)
+    ctx.tlc("MC_Inherit", "MC_Inherit_twolevels", must_pass=False, workers=2, coverage=False,
+            label="MC_Inherit_twolevels(documents what a closure cut after two levels misses)")
